@@ -326,6 +326,49 @@ spec('Swap', 'C08', lambda tier: prod(w=W(tier)), b_swap,
      lambda v, p: dict(ra=v['b'] if v['swap'] else v['a'], rb=v['a'] if v['swap'] else v['b']))
 
 
+# ---- operands of different widths (the narrower one counts as zero-extended); kept as entries of their own so that a finding here has its own key
+def b_two(cls, outs=('r',), ow=lambda p: max(p['aw'], p['bw'])):
+    def build(D, p):
+        a, b = D.wire('a', p['aw']), D.wire('b', p['bw'])
+        o = {k: D.wire(k, ow(p) if k == 'r' else 1) for k in outs}
+        D.make(cls, 'dut', a, b, *o.values())
+        return dict(a=a, b=b), o
+    return build
+
+
+def cfg_mixed(tier):
+    ws = (1, 2, 3) if tier == 'quick' else (1, 2, 3, 4)
+    return [dict(aw=x, bw=y) for x in ws for y in ws if x != y]
+
+
+spec('Equal:mixed-widths', 'C08', cfg_mixed, b_two('Equal', ('r',), lambda p: 1), lambda v, p: dict(r=int(v['a'] == v['b'])))
+for _cls, _f in (('Xor2', lambda a, b: a ^ b),):          # And2 / Or2 / Mux2 are leaves: their contracts (C08.a) enumerate the port widths independently
+    spec(_cls + ':mixed-widths', 'C08', cfg_mixed, b_two(_cls), (lambda v, p, _f=_f: dict(r=_f(v['a'], v['b']))))
+
+
+def b_mux_mixed(cls):
+    def build(D, p):
+        sel, i0, i1, r = D.wire('sel', 1), D.wire('i0', p['aw']), D.wire('i1', p['bw']), D.wire('r', max(p['aw'], p['bw']))
+        D.make(cls, 'dut', sel, *([[i0, i1]] if cls == 'Mux' else [i0, i1]), r)
+        return dict(sel=sel, i0=i0, i1=i1), dict(r=r)
+    return build
+
+
+for _cls in ('Mux',):
+    spec(_cls + ':mixed-widths', 'C08', cfg_mixed, b_mux_mixed(_cls), lambda v, p: dict(r=v['i1'] if v['sel'] else v['i0']))
+
+
+def b_swap_mixed(D, p):
+    a, b, s = D.wire('a', p['aw']), D.wire('b', p['bw']), D.wire('swap')
+    w = max(p['aw'], p['bw'])
+    ra, rb = D.wire('ra', w), D.wire('rb', w)
+    D.make('Swap', 'dut', a, b, s, ra, rb)
+    return dict(a=a, b=b, swap=s), dict(ra=ra, rb=rb)
+
+
+spec('Swap:mixed-widths', 'C08', cfg_mixed, b_swap_mixed, lambda v, p: dict(ra=v['b'] if v['swap'] else v['a'], rb=v['a'] if v['swap'] else v['b']))
+
+
 # ================================================================= C07: arithmetic compositions
 def b_add(cls):
     def build(D, p):
